@@ -272,9 +272,15 @@ def replay_start_first(failure):
             F.emitter._thread.join(3)
         if not events or events[0] != 'START' or events.count('START') != 1:
             obs.append(f'{label}: event history {events}')
+        elif label != 'init succeeds' and 'ABORT' not in events:
+            obs.append(f'{label}: the run ended by an error but no ABORT was emitted: {events}')
+        elif label == 'init succeeds' and 'COMPLETE' not in events:
+            obs.append(f'{label}: the run ended cleanly but no COMPLETE was emitted: {events}')
     return {'confirmed': bool(obs), 'inputs': 'Filter.run with lineage on: init() raising at different points / succeeding', 'observed': obs or 'START first, exactly once',
-            'required': 'every run history starts with exactly one START event'}
+            'required': 'every run history starts with exactly one START event; an error run reports ABORT, a clean one COMPLETE'}
 
 
 UNITS = [RunUnit({'C18'}, name='Filter.run lineage events (+ real exit, fini)'), InitUnit(('C18',)), HeartbeatUnit()]
 UNITS[1].replay = replay_start_first
+_run_replay = UNITS[0].replay
+UNITS[0].replay = lambda failure: replay_start_first(failure) if any(x in failure.get('obligation', '') for x in ('abort_on_error', 'complete_on_clean', 'start_first', 'start_once')) else _run_replay(failure)
